@@ -127,6 +127,10 @@ func main() {
 	if v := os.Getenv("VERIF_REPO"); v != "" {
 		repo = v
 	}
+	if exe, err := os.Executable(); err == nil {
+		// default output: the lean project next to this binary (<root>/bin/extract -> <root>/lean/Sekai/Gen)
+		outDir = filepath.Join(filepath.Dir(filepath.Dir(exe)), "lean", "Sekai", "Gen")
+	}
 	if v := os.Getenv("VERIF_GEN_OUT"); v != "" {
 		outDir = v
 	}
